@@ -891,7 +891,8 @@ def gen_geodst(rng, asc, idx):
     d = geodst.GeodstData()
     md = d.metadata
     md["label"] = rand_text(rng, 28)
-    cyc = [0, 6, 1, 10, 12, 2, 18, 3, 7, 9, 11, 14, 17, 8, 13, 15, 16]
+    # both ends of every geometry-type range the readers dispatch on come first, so that the quick tier (6 containers) visits them
+    cyc = [0, 11, 1, 6, 12, 3, 18, 10, 2, 7, 9, 14, 17, 8, 13, 15, 16]
     igom = cyc[idx % len(cyc)] if idx < len(cyc) else rng.choice([0, 1, 2, 3, 6, 10, 14, 18])
     nrass = [0, 1, 2][(idx // 2) % 3]
     nci, ncj, nck = rng.randint(1, 4), rng.randint(1, 3), rng.randint(1, 3)
